@@ -78,6 +78,12 @@ func (c *WarmUpTrafficShapingCalculator) CalculateAllowedTokens(_ uint32, _ int3
 	}
 	if restToken >= int64(c.warningToken) {
 		aboveToken := restToken - int64(c.warningToken)
+		if aboveToken == 0 {
+			// Exactly at the warning line the allowed rate is the threshold itself. Computing it
+			// through the slope would yield NaN (0 * +Inf) when maxToken == warningToken, which
+			// happens for small thresholds, and a NaN threshold rejects nothing.
+			return c.threshold
+		}
 		warningQps := math.Nextafter(1.0/(float64(aboveToken)*c.slope+1.0/c.threshold), math.MaxFloat64)
 		return warningQps
 	} else {
